@@ -77,6 +77,9 @@ def run(ctx, rep):
             for c in r['path'].calls:
                 callees.add(c[1])
         hit = sorted(c for c in callees if c in AL or c == 'object::allocate')
+        if op == 'Const':
+            # the one allowed copy: a pooled *string* literal is duplicated on load (strings are mutable in place, R10.4)
+            hit = [c for c in hit if 'FromString' not in c]
         rep.ob(not hit, 'R13.1', v['fn'].path, 'OpCode::%s' % op, 'moves the tagged word only; calls reaching the allocator: %s' % hit, 'src/vm.rs')
     o = F.adt('object::Object')
     rep.ob(o.get('is_copy') and o.get('size') == 8, 'R13.1', 'object::Object', 'Copy word', 'an Object is a pointer-sized Copy value', span_loc(o['span']))
@@ -205,6 +208,21 @@ def resolve_unit(fn, v):
     return None
 
 
+COPIES = ('::to_owned', '::to_string', '::clone', 'String::from', '::to_vec', '::collect')
+
+
+def borrows_object_payload(v, depth=0):
+    """does the value still borrow from an Object payload (as_str/as_vec) without an intervening copy"""
+    if not isinstance(v, tuple) or depth > 14:
+        return False
+    if v and v[0] == 'call':
+        if any(v[1].endswith(c) for c in COPIES):
+            return False
+        if v[1] in ('object::Object::as_str', 'object::Object::as_vec', 'object::Object::as_str_unchecked', 'object::Object::as_vec_unchecked'):
+            return True
+    return any(borrows_object_payload(x, depth + 1) for x in v if isinstance(x, tuple))
+
+
 def check_aliasing(ctx, rep, rule):
     """while a &mut obtained from as_string_mut/as_vec_mut/get_mut is live in a body, no other Object value is dereferenced
     (as_str/as_vec/Display...) unless it is provably a different object"""
@@ -237,7 +255,7 @@ def check_aliasing(ctx, rep, rule):
             for mb in mut_blocks:
                 tt = f.term(mb)
                 for a in tt['args']:
-                    if 'as_str' in str(sym(f, a)) or 'as_vec' in str(sym(f, a)):
+                    if borrows_object_payload(sym(f, a)):
                         flows = True
             rep.ob(not flows, rule, f.path, 'read of another Object while holding &mut (%s)' % callee_name(t).split('::')[-1],
                    'a borrowed view of an Object (which may be the very object being mutated: `s[0] = s`) is passed into the mutation; copy it first',
